@@ -168,7 +168,11 @@ def build_c06_query(db, prog, name, levels, known_where=(), known_where7=()):
     kw7 = ' || '.join('(%s)' % w for w in known_where7)
     H.append('  { struct bbpars pars2; int ier2 = nondet_int();')
     H.append('    genbbsub(&rng, &ev, 1, &nm, ilevel, modebb, -1, &ier2, &pars2);')
-    H.append('    __CPROVER_assert(ier2 == ier_x, "C07 %s: accept/reject does not depend on what the parameter block held before");' % name)
+    if kw7:
+        H.append('    __CPROVER_assert((%s) || ier2 == ier_x, "C07 %s: accept/reject does not depend on what the parameter block held before");' % (kw7, name))
+        H.append('    __CPROVER_assert(!(%s) || ier2 == ier_x, "C07 %s: accept/reject does not depend on what the parameter block held before [where %s]");' % (kw7, name, ','.join(known_where7)))
+    else:
+        H.append('    __CPROVER_assert(ier2 == ier_x, "C07 %s: accept/reject does not depend on what the parameter block held before");' % name)
     c7 = ('pars2.Qbb == pars.Qbb && pars2.Zdbb == pars.Zdbb && pars2.Adbb == pars.Adbb && pars2.EK == pars.EK && '
           'pars2.bx_base_enrange.levelE == pars.bx_base_enrange.levelE && pars2.bx_base_enrange.itrans02 == pars.bx_base_enrange.itrans02 && '
           'pars2.modebb == pars.modebb && pars2.istartbb == pars.istartbb')
